@@ -81,7 +81,6 @@ TRACE_TAGS = [
     "dev:form-context",
     "dev:command",
     "dev:dialog-close-p",
-    "dev:dialog-end",
     "dev:textarea",
     "dev:isindex",
     "dev:any-other-end-tag-ns",
@@ -91,8 +90,19 @@ TRACE_TAGS = [
     "dev:implied-end-recursive",  # implied end tags popped > 900 elements (html5lib recursion)
 ]
 
-COMPAT_SWITCHES = set()       # filled in below (phase 2)
-UNIMPLEMENTED_COMPAT = set()  # filled in below
+# compat switches (names of "dev:<name>" tags without the prefix) that reproduce html5lib's
+# deviating behaviour at that step
+COMPAT_SWITCHES = frozenset([
+    "special-extra", "rb-rtc", "aaa-step1", "aaa-not-in-scope", "aaa-inner-loop",
+    "noscript-fragment", "form-context", "command", "dialog-close-p", "textarea", "isindex",
+    "any-other-end-tag-ns", "after-body-ws", "frameset-text",
+])
+# cdata-nul: html5lib's tokenizer turns NUL inside a CDATA section into U+FFFD; the token
+#   interface does not tell the tree builder whether a NUL came from a CDATA section, so the
+#   switch has to live in the tokenizer / the harness.
+# implied-end-recursive: a RecursionError in html5lib, nothing to reproduce.
+# template: html5lib has no template support at all (no switch by design).
+UNIMPLEMENTED_COMPAT = frozenset(["cdata-nul", "implied-end-recursive"])
 
 # --------------------------------------------------------------------------------------
 # Sets and tables
@@ -1506,13 +1516,19 @@ class _Parser(object):
             self.set_mode("in frameset")
             return None
         if name in self.BODY_BLOCK_START:
-            if self.in_button_scope("p"):
-                if name == "dialog":
+            if name == "dialog":
+                p_open = self.in_button_scope("p")
+                if p_open or self.afe_needs_reconstruct():
+                    # html5lib has no dialog start tag rule: "any other start tag"
                     self.trace.add("dev:dialog-close-p")
-                    if "dialog-close-p" not in self.compat:
-                        self.close_p()
-                else:
+                    if "dialog-close-p" in self.compat:
+                        self.reconstruct_afe()
+                        self.insert_html_element(name, attrs)
+                        return None
+                if p_open:
                     self.close_p()
+            elif self.in_button_scope("p"):
+                self.close_p()
             self.insert_html_element(name, attrs)
             return None
         if name in HEADINGS:
@@ -1775,6 +1791,12 @@ class _Parser(object):
         # any other start tag
         if name == "menuitem":
             self.trace.add("ambiguous:menuitem")
+        if name == "command":
+            self.trace.add("dev:command")
+            if "command" in self.compat:
+                self.insert_html_element(name, attrs)
+                stack.pop()
+                return None
         if name == "isindex":
             self.trace.add("dev:isindex")
             if "isindex" in self.compat:
@@ -1803,11 +1825,6 @@ class _Parser(object):
             self.set_mode("after body")
             return REPROCESS
         if name in self.BODY_BLOCK_END:
-            if name == "dialog":
-                self.check_dialog_end_deviation()
-                if "dialog-end" in self.compat:
-                    self.any_other_end_tag(name)
-                    return None
             if not self.in_scope(name):
                 self.err()
                 self.trace.add("scope-barrier")
@@ -1896,25 +1913,6 @@ class _Parser(object):
             return self.in_body_start(("start", "br", [], False))
         self.any_other_end_tag(name)
         return None
-
-    def check_dialog_end_deviation(self):
-        """tag dev:dialog-end when treating </dialog> as 'any other end tag' would differ"""
-        scoped = self.in_scope("dialog")
-        other = False
-        stack = self.stack
-        i = len(stack) - 1
-        while i >= 0:
-            node = stack[i]
-            if node.name == "dialog" and node.ns == HTML_NS:
-                other = True
-                break
-            if (node.ns == HTML_NS and node.name in SPECIAL_HTML) or \
-               (node.ns == MATHML_NS and node.name in SPECIAL_MATHML) or \
-               (node.ns == SVG_NS and node.name in SPECIAL_SVG):
-                break
-            i -= 1
-        if scoped != other:
-            self.trace.add("dev:dialog-end")
 
     # ------------------------------------------------------------------ text
     def m_text(self, token):
@@ -2711,9 +2709,40 @@ class _Parser(object):
         return None  # EOF never reaches the foreign-content rules
 
     # ------------------------------------------------------------------ compat helpers
-    def compat_isindex(self, token):   # replaced in phase 2 if implemented
-        self.reconstruct_afe()
-        self.insert_html_element(token[1], token[2])
+    def compat_isindex(self, token):
+        """html5lib's InBodyPhase.startTagIsIndex (the pre-2016 isindex expansion)"""
+        self.err()
+        if self.form is not None:
+            return None
+        attrs = token[2]
+        d = dict(attrs)
+        form_attrs = [("action", d["action"])] if "action" in d else []
+        self.in_body_start(("start", "form", form_attrs, False))
+        self.in_body_start(("start", "hr", [], False))
+        self.in_body_start(("start", "label", [], False))
+        prompt = d.get("prompt", "This is a searchable index. Enter search keywords: ")
+        if prompt:
+            allws = True
+            for c in prompt:
+                if c not in WS:
+                    allws = False
+                    break
+            self.m_in_body(("chars", prompt, "ws" if allws else "text"))
+        new = []
+        seen_name = False
+        for (n, v) in attrs:
+            if n in ("action", "prompt"):
+                continue
+            if n == "name":
+                seen_name = True
+                v = "isindex"
+            new.append((n, v))
+        if not seen_name:
+            new.append(("name", "isindex"))
+        self.in_body_start(("start", "input", new, token[3]))
+        self.in_body_end(("end", "label"))
+        self.in_body_start(("start", "hr", [], False))
+        self.in_body_end(("end", "form"))
         return None
 
     MODES = {
